@@ -39,6 +39,7 @@ type Step struct {
 	SubID  uint32 `json:",omitempty"`
 	Topic  string `json:",omitempty"`
 	PID    uint16 `json:",omitempty"`
+	RM     uint16 `json:",omitempty"` // connect (v5): Receive Maximum declared by this connection
 }
 
 // History is one generated case.
@@ -46,6 +47,9 @@ type History struct {
 	IDs   []string // client ids (some start with the letters of the key prefixes)
 	V     []byte
 	Steps []Step
+	// InflightExpiry: mqtt.inflight_expiry is one hour instead of 0 (in-flight entries carry a deadline that is
+	// rewritten in the store whenever they are replayed)
+	InflightExpiry bool `json:",omitempty"`
 }
 
 func (s Step) String() string {
@@ -107,12 +111,15 @@ type trace struct {
 	stepEnd []int
 }
 
-func redisBroker(addr string) (*broker.Broker, error) {
+func redisBroker(addr string, h *History) (*broker.Broker, error) {
 	return broker.Start(broker.Options{Cfg: func(c *config.Config) {
 		c.Persistence.Type = config.PersistenceTypeRedis
 		c.Persistence.Redis.Addr = addr
 		c.MQTT.MessageExpiry = 0
 		c.MQTT.InflightExpiry = 0
+		if h != nil && h.InflightExpiry {
+			c.MQTT.InflightExpiry = time.Hour
+		}
 	}})
 }
 
@@ -123,7 +130,7 @@ func execute(h *History) (*trace, []string, error) {
 		return nil, nil, err
 	}
 	defer env.Close()
-	b, err := redisBroker(env.Srv.Addr())
+	b, err := redisBroker(env.Srv.Addr(), h)
 	if err != nil {
 		return nil, nil, err
 	}
@@ -139,7 +146,7 @@ func execute(h *History) (*trace, []string, error) {
 	}
 	pending := map[int][]*mqttx.Packet{} // subscriber -> received but unacknowledged PUBLISH packets
 	seq := 0
-	connect := func(i int) error {
+	connect := func(i int, rm uint16) error {
 		c, err := wire.Dial(h.IDs[i], b.Addr, mqttx.Version(h.V[i]))
 		if err != nil {
 			return err
@@ -149,6 +156,9 @@ func execute(h *History) (*trace, []string, error) {
 		if h.V[i] == 5 {
 			e := uint32(7200)
 			p.Props = &mqttx.Props{SessionExpiry: &e}
+			if rm != 0 {
+				p.Props.ReceiveMax = &rm
+			}
 		}
 		ack, err := c.Connect(p, step)
 		if err != nil || ack.Code != 0 {
@@ -180,7 +190,7 @@ func execute(h *History) (*trace, []string, error) {
 			if c != nil {
 				break
 			}
-			if err := connect(st.C); err != nil {
+			if err := connect(st.C, st.RM); err != nil {
 				return nil, nil, err
 			}
 			_ = conns[st.C].Ping(step)
@@ -189,6 +199,7 @@ func execute(h *History) (*trace, []string, error) {
 			}
 			// messages queued while offline are (re)sent now; they stay unacknowledged
 			time.Sleep(20 * time.Millisecond)
+			_ = conns[st.C].Ping(step)
 			for _, r := range conns[st.C].Publishes() {
 				pending[st.C] = append(pending[st.C], r.P)
 			}
@@ -364,7 +375,7 @@ func checkPrefix(tr *trace, k int) (fs []finding, obs map[string]int, rerr error
 				add("startup.panic", fmt.Sprintf("broker start-up on the store state after %d commands panicked: %v", k, p))
 			}
 		}()
-		b, err = redisBroker(srv.Addr())
+		b, err = redisBroker(srv.Addr(), h)
 	}()
 	if len(fs) > 0 {
 		return fs, obs, nil
@@ -631,7 +642,7 @@ func checkPrefix(tr *trace, k int) (fs []finding, obs map[string]int, rerr error
 
 func gen(rng *rand.Rand, n int) History {
 	ids := [][]string{{"pub", "sub1", "bus2"}, {"alice", "sub:carol", "u-bob"}, {"p", "s", "q"}}[rng.Intn(3)]
-	h := History{IDs: ids, V: []byte{[]byte{4, 5}[rng.Intn(2)], []byte{4, 5}[rng.Intn(2)], 5}}
+	h := History{IDs: ids, V: []byte{[]byte{4, 5}[rng.Intn(2)], []byte{4, 5}[rng.Intn(2)], 5}, InflightExpiry: rng.Intn(2) == 0}
 	filters := []string{"t/a", "t/+", "t/#", "$share/g/t/a", "x"}
 	online := make([]bool, 3)
 	pid := uint16(60000) // far away from the identifiers the scripted client assigns itself
@@ -705,6 +716,20 @@ func directed() History {
 	return h
 }
 
+// replayInBatches is a fixed history: five messages are in flight (delivered, unacknowledged) when the subscriber's
+// connection ends; it comes back declaring Receive Maximum 2, so the broker replays them in three batches and - with
+// inflight_expiry set - rewrites each replayed entry in the store. Whatever the crash point, all five come again.
+func replayInBatches() History {
+	h := History{IDs: []string{"pub", "sub1", "s"}, V: []byte{4, 4, 5}, InflightExpiry: true}
+	h.Steps = []Step{{Kind: "connect", C: 0}, {Kind: "connect", C: 2}, {Kind: "sub", C: 2, Filter: "t/#", QoS: 1}}
+	for i := 0; i < 5; i++ {
+		h.Steps = append(h.Steps, Step{Kind: "pub", C: 0, Topic: "t/a", QoS: byte(1 + i%2)})
+	}
+	h.Steps = append(h.Steps, Step{Kind: "disconnect", C: 2}, Step{Kind: "connect", C: 2, RM: 2}, Step{Kind: "ack", C: 2},
+		Step{Kind: "disconnect", C: 2}, Step{Kind: "connect", C: 2, RM: 3}, Step{Kind: "ack", C: 2}, Step{Kind: "ack", C: 2})
+	return h
+}
+
 // longConnection: a session whose last connection lasted longer than its expiry interval survives a crash like
 // any other: the interval counts from the end of the connection (here: the crash), not from its beginning.
 // Real time: expiry 2 s, connected for 2.6 s, reconnect right after the restart.
@@ -715,7 +740,7 @@ func longConnection(r *monitor.Run) {
 		return
 	}
 	defer env.Close()
-	b, err := redisBroker(env.Srv.Addr())
+	b, err := redisBroker(env.Srv.Addr(), nil)
 	if err != nil {
 		r.Inconclusive(err.Error())
 		return
@@ -747,7 +772,7 @@ func longConnection(r *monitor.Run) {
 	defer srv2.Close()
 	srv2.Restore(state)
 	t0 := time.Now()
-	b2, err := redisBroker(srv2.Addr())
+	b2, err := redisBroker(srv2.Addr(), nil)
 	if err != nil {
 		r.Violation("startup.error", "broker does not start on the store of a broker that died with a connected client: "+err.Error(), nil)
 		return
@@ -780,12 +805,15 @@ func Run(r *monitor.Run) {
 	lc.Add(1)
 	go func() { defer lc.Done(); longConnection(r) }()
 	defer lc.Wait()
-	nh := r.Pick(4, 120)
+	nh := r.Pick(5, 120)
 	rng := r.Rand("histories")
 	for hi := 0; hi < nh; hi++ {
 		h := gen(rng, r.Pick(30, 45))
 		if hi == 0 {
 			h = directed()
+		}
+		if hi == 1 {
+			h = replayInBatches()
 		}
 		tr, notes, err := execute(&h)
 		if err != nil {
@@ -799,7 +827,7 @@ func Run(r *monitor.Run) {
 		r.Count("journal_commands", int64(n))
 		r.Count("histories", 1)
 		var ks []int
-		if r.Quick() && hi != 0 {
+		if r.Quick() && hi > 1 {
 			// stratified sample: step boundaries and points inside steps
 			set := map[int]bool{0: true, n: true}
 			for len(set) < min(40, n+1) {
